@@ -42,6 +42,10 @@ class BranchOptimizationPass(IRPass):
             if term_inst.opcode != "jnz":
                 continue
 
+            if len(self.cfg.cfg_out(bb)) != 2:
+                # `jnz c, @a, @a` (SimplifyCFG can thread both targets to the
+                # same block): nothing to flip
+                continue
             fst, snd = self.cfg.cfg_out(bb)
 
             fst_liveness = self.heuristic_liveness[fst]
